@@ -41,7 +41,9 @@ func (k c18Cfg) String() string {
 
 var c18Ifaces = []simnet.IfaceSpec{
 	{Name: "eth0", Addrs: []netip.Prefix{netip.MustParsePrefix("10.0.1.10/24"), netip.MustParsePrefix("2001:db8::10/64"),
-		netip.MustParsePrefix("fe80::10/64"), netip.MustParsePrefix("fec0::10/64"), netip.MustParsePrefix("::10.0.1.10/96")}},
+		netip.MustParsePrefix("fe80::10/64"), netip.MustParsePrefix("fec0::10/64"), netip.MustParsePrefix("::10.0.1.10/96"),
+		// site-local is fec0::/10, not only fec0::/16; link-local is fe80::/10
+		netip.MustParsePrefix("fed0::10/64"), netip.MustParsePrefix("feff:1::10/64"), netip.MustParsePrefix("febf::10/64")}},
 	{Name: "lo", Flags: net.FlagUp | net.FlagLoopback, Addrs: []netip.Prefix{netip.MustParsePrefix("127.0.0.1/8")}},
 	{Name: "eth1", Flags: net.FlagBroadcast, Addrs: []netip.Prefix{netip.MustParsePrefix("10.0.7.7/24")}}, // down
 	{Name: "eth2", Addrs: []netip.Prefix{netip.MustParsePrefix("10.0.1.11/24"), netip.MustParsePrefix("2001:db8::11/64")}},
@@ -242,6 +244,8 @@ func runC18(c *core.Ctx) {
 
 	o := &c18Oracle{c: c, k: k, ag: ag, w: w, host: h, failedIPs: map[netip.Addr]bool{}}
 	ufrag := ag.Ufrag
+	oldParks := map[*simnet.Park]bool{} // listens parked when Restart cancelled their cycle
+	oldRelease := -1                    // number of sockets just before such a listen was released
 	for cycle := 0; cycle < 2 && !c.Failed(); cycle++ {
 		o.beginCycle(ufrag)
 		st, _ := ag.A.GetGatheringState()
@@ -270,6 +274,13 @@ func runC18(c *core.Ctx) {
 		restarted := false
 		for step := 0; step < 200 && !c.Failed(); step++ {
 			synctest.Wait()
+			if oldRelease >= 0 {
+				// the listen released in the previous step belonged to the cancelled cycle: so does its socket
+				for _, so := range w.Sockets()[oldRelease:] {
+					o.oldSocks = append(o.oldSocks, so)
+				}
+				oldRelease = -1
+			}
 			o.observe()
 			if backToBack && step == t.Choose(3, "b2bstep") {
 				backToBack = false
@@ -296,6 +307,9 @@ func runC18(c *core.Ctx) {
 				}
 				o.cancelled = true
 				restarted = true
+				for _, p := range w.Parked() {
+					oldParks[p] = true
+				}
 				break
 			}
 			parked := w.Parked()
@@ -317,6 +331,10 @@ func runC18(c *core.Ctx) {
 				}
 				c.Step++
 				c.Logf("release %s fail=%v", p.Key, p.Fail != nil)
+				if oldParks[p] {
+					oldRelease = len(w.Sockets())
+					c.Probe("listen-of-cancelled-cycle-released-during-new-cycle")
+				}
 				w.Release(p)
 			} else {
 				d := pool[i-len(parked)]
@@ -375,6 +393,10 @@ type c18Oracle struct {
 	host      *simnet.Host
 	failSeen  int
 	sockSeen  int
+	// cycleSock0: sockets with a smaller id were opened before the running cycle began
+	cycleSock0 int
+	// oldSocks: sockets a cancelled cycle obtained after the Restart (its listens were still parked)
+	oldSocks []*simnet.Sock
 }
 
 func (o *c18Oracle) beginCycle(ufrag string) {
@@ -388,6 +410,7 @@ func (o *c18Oracle) beginCycle(ufrag string) {
 	o.failSeen = len(o.host.FailedListens)
 	o.w.Unlock()
 	o.candSeen = len(o.ag.CandSeq())
+	o.cycleSock0 = len(o.w.Sockets())
 }
 
 func (o *c18Oracle) noteListenFailure(key string) {
@@ -541,6 +564,24 @@ func (o *c18Oracle) endCycle() {
 			if ip, err := netip.ParseAddr(cand.Address()); err == nil {
 				have[ip] = true
 			}
+		}
+	}
+	// "Restart ... allows a fresh cycle whose results are not mixed with the old one": when a cycle has run to
+	// completion, no candidate socket opened by an earlier, cancelled cycle may still be open - it would keep
+	// its port (a single-port range could never be gathered again) and nobody owns it any more
+	for _, so := range o.oldSocks {
+		if !so.Closed() {
+			c.Failf("C18/socket-of-cancelled-cycle-still-open", "the new cycle completed, yet socket #%d on %s, obtained by the cancelled cycle after the Restart, is still open (%s)", so.ID, so.Local, k)
+			return
+		}
+	}
+	for _, so := range o.w.Sockets() {
+		if so.Host() != o.host || so.ID >= o.cycleSock0 || so.Closed() || so.Tag == "service" || so.Local.Port() == 5353 {
+			continue
+		}
+		if so.Tag == "ListenUDP" || so.Tag == "ListenPacket" {
+			c.Failf("C18/socket-of-cancelled-cycle-still-open", "the cycle completed, yet socket #%d on %s opened by an earlier (cancelled) cycle is still open (%s)", so.ID, so.Local, k)
+			return
 		}
 	}
 	// a listen that failed for any reason (injected error, port taken by another socket of the agent or of
